@@ -251,7 +251,10 @@ const richSPDX = `{"spdxVersion":"SPDX-2.3","dataLicense":"CC0-1.0","SPDXID":"SP
 "licenseInfoInFiles":["MIT"],"licenseComments":"c","copyrightText":"c","comment":"c","attributionTexts":["t"]}],
 "relationships":[{"spdxElementId":"SPDXRef-root","relationshipType":"DEPENDS_ON","relatedSpdxElement":"SPDXRef-lib"},
 {"spdxElementId":"SPDXRef-root","relationshipType":"CONTAINS","relatedSpdxElement":"NOASSERTION"},
-{"spdxElementId":"SPDXRef-DOCUMENT","relationshipType":"DESCRIBES","relatedSpdxElement":"SPDXRef-root"}]}`
+{"spdxElementId":"SPDXRef-DOCUMENT","relationshipType":"DESCRIBES","relatedSpdxElement":"SPDXRef-root"},
+{"spdxElementId":"SPDXRef-DOCUMENT","relationshipType":"DESCRIBES","relatedSpdxElement":"NONE"},
+{"spdxElementId":"SPDXRef-DOCUMENT","relationshipType":"DESCRIBES","relatedSpdxElement":"NOASSERTION"},
+{"spdxElementId":"SPDXRef-lib","relationshipType":"DEPENDS_ON","relatedSpdxElement":"NONE"}]}`
 
 func parseGen(g *G, tier string) []M {
 	var ops []M
